@@ -670,8 +670,11 @@ class CodeGenMapper(Mapper[ImplementedResult, Never, [CodeGenState]]):
 
         self.rec(expr._container, state)
 
-        assert expr in state.results
-        return state.results[expr]
+        # The container recorded its entry as it hands it out; *expr* may be
+        # that entry with other tags.
+        result = state.results[expr._container[expr.name]]
+        state.results[expr] = result
+        return result
 
     def map_loopy_call(self, expr: LoopyCall, state: CodeGenState) -> None:
         self.has_loopy_call = True
